@@ -344,6 +344,42 @@ theorem spm_image_roundtrip_M_mismatch (E : Ext) (fl : Flips) (shape : List Nat)
 
 example : (⟨true, false, true⟩ : Flips).save ≠ (⟨true, false, true⟩ : Flips).load := by decide
 
+/-- the literals of the `.mat` reader and writer, regenerated from the AST of `Spm99AnalyzeImage.from_file_map` /
+    `to_file_map` on every run, are the model's: `to_111[:3, 3] = 1`, `from_111[:3, 3] = -1` (so the two shifts
+    cancel: `spm_shift_inverse`), and both `np.diag` flips negate exactly the x row -/
+theorem gen_spm_consts_ok :
+    (⟨(Gen.spmFrom111 : Rat), (Gen.spmFrom111 : Rat), (Gen.spmFrom111 : Rat)⟩ : V3 Rat) = from111 ∧
+    (⟨(Gen.spmTo111 : Rat), (Gen.spmTo111 : Rat), (Gen.spmTo111 : Rat)⟩ : V3 Rat) = to111 ∧
+    Gen.spmFrom111 + Gen.spmTo111 = 0 ∧
+    Gen.spmFlipRead = [-1, 1, 1, 1] ∧ Gen.spmFlipWrite = [-1, 1, 1, 1] := by
+  decide +kernel
+
+/-! ### a header of another class handed to the constructor -/
+
+/-- `Klass(data, affine, other_image.header)`: a NIfTI-1 header converted for a NIfTI-2 image (cast `rnd = id`)
+    keeps codes, sform rows, quaternion and offsets exactly — only zooms of axes the data lacks are reset —
+    so its sform is still the affine the priority rule selects; the other direction rounds every field to
+    float32; an Analyze / SPM / MGH header brings zooms only: both codes 0, the fallback affine -/
+theorem foreign_header_conversion (rnd : Rat → Rat) (h : NHdr) (shape : List Nat) (z : V3 Rat) (E : Ext) (f : NFmt) :
+    (h.convertN rnd).sformCode = h.sformCode ∧ (h.convertN rnd).qformCode = h.qformCode ∧
+    (h.convertN rnd).getSform = h.srow.map rnd ∧
+    ((∀ x, rnd x = x) → (h.convertN rnd).srow = h.srow ∧ (h.convertN rnd).quat = h.quat ∧
+        (h.convertN rnd).qoff = h.qoff ∧ (h.convertN rnd).qfac = h.qfac ∧
+        (h.sformCode ≠ 0 → (h.convertN rnd).bestAffine E f = h.bestAffine E f)) ∧
+    (NHdr.ofZooms rnd shape z).bestAffine E f
+      = .ok (shapeZoomAffine shape (clipZooms shape.length (z.map rnd)) true) := by
+  refine ⟨rfl, rfl, rfl, ?_, ?_⟩
+  · intro hid
+    refine ⟨L.aff_map_id rnd hid _, L.v3_map_id rnd hid _, L.v3_map_id rnd hid _, hid _, ?_⟩
+    intro hs
+    have e : (h.convertN rnd).sformCode ≠ 0 := hs
+    rw [(best_affine_priority E f _).1 e, (best_affine_priority E f _).1 hs]
+    exact congrArg Except.ok (L.aff_map_id rnd hid _)
+  · simp only [NHdr.bestAffine, NHdr.ofZooms, defaultNHdr, NHdr.baseAffine, ne_eq, not_true_eq_false, if_false]
+
+example : (((defaultNHdr [2, 3, 4]).setSform exactExt (some ⟨⟨0, 0, 2, 4, 0, 0, 0, -8, 0⟩, ⟨1, 2, 3⟩⟩) 3).convertN roundF32).sformCoded
+    = (some ⟨⟨0, 0, 2, 4, 0, 0, 0, -8, 0⟩, ⟨1, 2, 3⟩⟩, 3) := by decide +kernel
+
 /-! ### fallback affine -/
 
 /-- [definitional: the closed form of `shapeZoomAffine` on a list of ≥ 3 axes]  DESIGN `fallback_affine`: `shape_zoom_affine` on ≥ 3 axes is `diag(±z₁, z₂, z₃)` with translation
